@@ -246,6 +246,13 @@ def b64_tables(ctx, rule="B64-TABLE"):
         hi_arg = S.val(f.blocks[hi]["term"]["args"][0])
         okp = "Iterator>::next@Some.0" in lo_arg and "peek@Some.0" in hi_arg
     ctx.check(okp, rule, "encode packing", "0x3800 + (next << 6) + current ; 0x4800 + current", "encode packs %s" % fu, f.loc(), fn=f.name, key=rule + "|encode")
+    # no shortcut around the packing loop: every name, whatever it starts with, goes through it (container-level names such as "\\x05SummaryInformation"
+    # must come out different from the real special streams)
+    lp = cfg.natural_loops(f)
+    dm = cfg.dominators(f)
+    hdrs = [h for h, bl in lp.items() if any(n.endswith("to_b64") and b in bl for b, n, a, t in cs)]
+    ctx.check(bool(hdrs) and all(any(h in dm[r] for h in hdrs) for r in f.returns()), rule, "encode always runs the packing loop", "", "streamname::encode can return without passing through its "
+              "packing loop: some names are stored verbatim and collide with names outside the user-stream namespace", f.loc(), fn=f.name, key=rule + "|encode-always")
     marker = [a for b, n, a, t in cs if n.endswith("String::push") and a[1] == "c:18496"]
     ctx.check(len(marker) == 1 and has_fact(S, marker[0] and [b for b, n, a, t in cs if n.endswith("String::push") and a[1] == "c:18496"][0], r"^p2$", True), rule, "table marker U+4840 only for tables", "",
               "encode does not push U+4840 exactly when is_table", f.loc(), fn=f.name, key=rule + "|marker")
